@@ -380,6 +380,33 @@ fn oracle_text_inner(text: &str, out: &mut Vec<Failure>) -> TextFacts {
             ));
         }
     }
+
+    // Stage 4: the same text through the source-file layer (the entry point of the analyser):
+    // its diagnostics and its tree refer to the text that was passed in
+    let r = guarded(|| {
+        use oq3_source_file::SourceTrait;
+        let ss = oq3_source_file::parse_source_string(text, None, None::<&[std::path::PathBuf]>);
+        let mut fails = vec![];
+        if ss.source() != text {
+            fails.push(Failure::new("C02:source-string:stored-source-differs", detail(text, "")));
+        }
+        if let Some(ast) = ss.syntax_ast() {
+            check_ranges_c12(text, ast.errors(), "source-string", &mut fails);
+            if ast.have_parse() && ast.syntax_node().text().to_string() != text {
+                fails.push(Failure::new("C02:source-string:tree-text-differs", detail(text, &ast.syntax_node().text().to_string())));
+            }
+        }
+        fails
+    });
+    match r {
+        Ok(fails) => out.extend(fails),
+        Err(p) => {
+            out.push(Failure::new(
+                format!("C01:source-string:{}", panic_key(&p)),
+                detail(text, &format!("{}:{} {}", p.file, p.line, p.msg)),
+            ));
+        }
+    }
     facts
 }
 
